@@ -105,6 +105,17 @@ func (f LeveldbDiskStorage) SetTableMeta(tbl *btapb.Table) {
 	}
 }
 
+// DeleteTableMeta removes the persisted metadata of a table, so that the table
+// is not loaded again by GetTables. The row data directory is left in place
+// (requests that already hold the table may still be using it); it is wiped
+// if a table with the same name is created again.
+func (f LeveldbDiskStorage) DeleteTableMeta(name string) {
+	outPath := filepath.Join(f.Root, name) + ".table.proto"
+	if err := os.Remove(outPath); err != nil && !os.IsNotExist(err) {
+		f.errLog(err, "os.Remove %q", outPath)
+	}
+}
+
 func (f LeveldbDiskStorage) errLog(err error, format string, args ...interface{}) {
 	if f.ErrLog != nil {
 		f.ErrLog(err, fmt.Sprintf(format, args...))
